@@ -40,6 +40,7 @@ import CaddyModel.C16.HistProps
 import CaddyModel.C16.GlueProps
 import CaddyModel.C16.BindProps
 import CaddyModel.C16.ServerOptsProps
+import CaddyModel.C16.AddrProps
 
 namespace CaddyModel.C16
 
